@@ -80,8 +80,17 @@ func modeCors(c *Ctx) {
 		}
 		cf.Set(reflect.MakeFunc(cf.Type(), func(args []reflect.Value) []reflect.Value {
 			corsCalls++
-			gotM = append([]string{}, args[0].Interface().([]string)...)
-			gotH = append([]string{}, args[1].Interface().([]string)...)
+			ms, hs := args[0].Interface().([]string), args[1].Interface().([]string)
+			gotM = append([]string{}, ms...)
+			gotH = append([]string{}, hs...)
+			// the arguments are this call's own: a handler may filter or rewrite
+			// them in place without any later preflight noticing
+			for i := range ms {
+				ms[i] = "scribbled"
+			}
+			for i := range hs {
+				hs[i] = strings.ToLower(hs[i])
+			}
 			return []reflect.Value{reflect.ValueOf(http.Handler(http.HandlerFunc(func(w http.ResponseWriter, r *http.Request) {
 				corsServed++
 				w.WriteHeader(204)
@@ -117,7 +126,9 @@ func modeCors(c *Ctx) {
 			c.Stat("shadowed_by_more_literal_template", 1)
 			continue
 		}
-		for _, installed := range []bool{true, false} {
+		for _, installed := range []bool{true, true, false} {
+			// (the installed case runs twice: the second preflight of a path must be
+			// answered like the first)
 			// with CORS disabled a CORSHandler field (should the package have
 			// one at all) is installed as well: it must stay without effect
 			install(installed)
